@@ -12,28 +12,35 @@ original value, whatever follows it (`rest`), by
 The quoting functions are the models in `EdbVerif.Quote` of
 `edb/edgeql/quote.py`, `edb/edgeql/codegen.py` (visit_Constant /
 visit_BytesConstant) and `edb/pgsql/common.py`, tied to the real Python code by
-the differential run.
+the differential run.  State of the code: after the fixes 269eaeb, 6e967b8,
+1c83ec0, 878e057.
 
 Reading guide.
   * `U : UClass` are Rust's `is_alphabetic` / `is_alphanumeric` outside ASCII and
     `P : PyUnicode` is CPython's Unicode database outside ASCII: every theorem
-    holds for ALL such tables.
+    holds for ALL such tables (the identifier theorem needs the inclusion
+    `Compat P U`, which the harness checks on every code point of the real tables).
   * "what follows" (`rest`) is arbitrary for the string and bytes literals: the
     closing delimiter ends the token.  A back-quoted name must not be followed
-    by another back-quote (`` `a` `` + `` `b` `` would read as one name), a bare
-    identifier must be followed by a non-identifier character; for SQL the
-    PostgreSQL continuation rule ('…' <newline> '…' is ONE constant) has to be
-    excluded.  Each theorem states its delimiter condition.
-  * FIVE of the nine full statements are FALSE of the code as it is; each has a
-    `_counterexample` theorem (replayed on the real code by the harness) and a
-    `_partial` theorem whose decidable guard is the exact expressible subset
-    the proof covers.  The false full statements stay visible in comments.
+    by another back-quote, a bare identifier must be followed by a
+    non-identifier character; for SQL the PostgreSQL continuation rule
+    ('…' <newline> '…' is ONE constant) has to be excluded.  Each theorem states
+    its delimiter condition.
+  * All EdgeQL statements now hold at full strength: the only guards left say
+    what NO quoted form can express (NUL in a string; NUL / bidi control in a
+    dollar string, which has no escapes; names that neither the back-quoted nor
+    the bare form can carry).  One SQL statement (`quote_e_literal`, dead code)
+    is still false: `_partial` + `_counterexample`.
+  * Section "what the fixes repaired": the counterexamples that were true of
+    the previous code, stated about `EdbVerif.QuoteOld`, next to the behaviour
+    of the current code on the same inputs.
 -/
 import EdbVerif.Lemmas.QuoteConst
 import EdbVerif.Lemmas.QuoteBytes
 import EdbVerif.Lemmas.QuoteIdent
 import EdbVerif.Lemmas.QuotePg
 import EdbVerif.Lemmas.QuoteAll
+import EdbVerif.Model.QuoteOld
 
 namespace EdbVerif.C18
 open EdbVerif.Lex EdbVerif.Quote
@@ -43,145 +50,77 @@ abbrev strTok (s : List Char) : Tok := ⟨.str, .str s⟩
 /-- the token a bytes literal must be read back as -/
 abbrev bytesTok (b : List UInt8) : Tok := ⟨.binStr, .bytes b⟩
 
-/-- no NUL and no bidirectional control (U+202A–202E, U+2066–2069) -/
-def noProhibited (s : List Char) : Bool := s.all (fun c => (checkProhibited c true).isNone)
+/-- no NUL: the strings an EdgeQL string literal can express -/
+def noNul (s : List Char) : Bool := s.all (fun c => c.toNat ≠ 0)
 
 /-! ## EdgeQL string literal: `quote_literal` -/
 
-/- FULL STATEMENT (false):
-     ∀ s, (∀ c ∈ s, c.toNat ≠ 0) → lexOne U (quoteLiteral s ++ rest) = .ok (strTok s, rest)
-   NUL cannot be written in any EdgeQL string literal; every other string can
-   (`\uXXXX`), but `escape_string` leaves the bidi controls raw and the tokenizer
-   rejects them unescaped. -/
-
 /-- `quote_literal` is read back as one string token with the original value,
-    for every string without NUL and bidi controls, whatever follows. -/
-theorem edgeql_str_partial (U : UClass) (s rest : List Char) (h : noProhibited s = true) :
+    for EVERY string without NUL, whatever follows. -/
+theorem edgeql_str (U : UClass) (s rest : List Char) (h : noNul s = true) :
     lexOne U (quoteLiteral s ++ rest) = .ok (strTok s, rest) :=
-  quoteLiteral_lex U s rest (by simpa [noProhibited] using h)
+  quoteLiteral_lex U s rest (by simpa [noNul] using h)
 
-/-- `quote_literal('‮')` = `'<U+202E>'` is rejected by the tokenizer. -/
-theorem edgeql_str_counterexample (U : UClass) :
-    (Char.ofNat 0x202e).toNat ≠ 0 ∧
-    lexOne U (quoteLiteral [Char.ofNat 0x202e]) = .error .prohibitedChar := by
-  exact ⟨by decide, by rfl⟩
+/-- NUL really is inexpressible: `quote_literal('\0')` = `'\x00'` is refused
+    (so is `\u0000`); no EdgeQL string literal denotes it. -/
+theorem edgeql_str_nul_rejected (U : UClass) :
+    quoteLiteral [Char.ofNat 0] = ['\'', '\\', 'x', '0', '0', '\''] ∧
+    lexOne U ['\'', '\\', 'x', '0', '0', '\''] = .error .badEscape ∧
+    lexOne U ['\'', '\\', 'u', '0', '0', '0', '0', '\''] = .error .badEscape := by
+  exact ⟨by decide, by rfl, by rfl⟩
 
 /-! ## EdgeQL dollar-quoted literal: `dollar_quote_literal` -/
 
-/- FULL STATEMENT (false):
-     ∀ s q, dollarQuoteLiteral s = some q → (no NUL / bidi in s) →
-       lexOne U (q ++ rest) = .ok (strTok s, rest)
-   The tag is chosen so that it does not occur in the text, but the text
-   followed by the closing tag can contain the tag EARLIER: when the text ends
-   with the tag minus its last `$` (`x$` for `$$`, `…$a` for `$a$`). -/
-
-/-- `dollar_quote_literal` is read back correctly exactly on
-    `dollarExpressible` texts: no NUL / bidi control (a dollar string has no
-    escapes) and the chosen tag `t` does not occur in `text ++ t.dropLast`. -/
-theorem edgeql_dollar_partial (U : UClass) (s q rest : List Char)
+/-- `dollar_quote_literal` is read back as one string token with the original
+    value for EVERY text a dollar string can carry (`dollarExpressible`: no NUL,
+    no bidi control — a dollar string has no escapes), whatever follows. -/
+theorem edgeql_dollar (U : UClass) (s q rest : List Char)
     (hq : dollarQuoteLiteral s = some q) (h : dollarExpressible s = true) :
     lexOne U (q ++ rest) = .ok (strTok s, rest) :=
   dollarQuote_lex U s q rest hq h
 
-/-- `dollar_quote_literal('x$') = '$$x$$$'` reads back as the string `x`
-    followed by a stray `$`. -/
-theorem edgeql_dollar_counterexample (U : UClass) :
-    dollarQuoteLiteral ['x', '$'] = some ['$', '$', 'x', '$', '$', '$'] ∧
-    lexOne U ['$', '$', 'x', '$', '$', '$'] = .ok (strTok ['x'], ['$']) := by
-  exact ⟨by decide, by rfl⟩
-
 /-- The loop of `dollar_quote_literal` only ever settles on `$$` or on a tag
-    `$<hex, least significant digit first, starting with a–f>$` that does not
-    occur in the text. -/
+    `$<hex, least significant digit first, starting with a–f>$`, and the tag
+    does not occur in the text followed by the tag minus its last `$`: the
+    closing tag is the FIRST occurrence after the opening one. -/
 theorem edgeql_dollar_tag (s t : List Char) (h : dollarTag s = some t) :
-    GoodTag t ∧ Quote.contains t s = false :=
+    GoodTag t ∧ Quote.contains t (s ++ t.dropLast) = false :=
   dollarTag_spec s t h
 
 /-! ## The form `visit_Constant` picks -/
 
-/- FULL STATEMENT (false):
-     ∀ s q, ppStr P s = some q → (∀ c ∈ s, c.toNat ≠ 0) →
-       lexOne U (q ++ rest) = .ok (strTok s, rest)
-   Three families of counterexamples: the dollar flaw above; a string with a
-   control character goes through Python's `repr`, which prints the
-   non-printable code points U+0080–U+00FF as `\xNN` (the tokenizer accepts `\x`
-   only below 0x80); a string without control characters is printed raw,
-   including bidi controls, which the tokenizer rejects unescaped. -/
-
-/-- `visit_Constant` (STRING) is read back as one string token with the
-    original value on `constExpressible` strings, whatever follows. -/
-theorem edgeql_const_partial (U : UClass) (P : PyUnicode) (s q rest : List Char)
-    (hq : ppStr P s = some q) (h : constExpressible P s = true) :
+/-- `visit_Constant` (STRING) — plain `'…'`/`"…"`, raw `r'…'`, `$$…$$`,
+    `$tag$…$tag$` or the escaped `quote_literal` form — is read back as one
+    string token with the original value for EVERY string without NUL,
+    whatever follows. -/
+theorem edgeql_const (U : UClass) (s q rest : List Char)
+    (hq : ppStr s = some q) (h : noNul s = true) :
     lexOne U (q ++ rest) = .ok (strTok s, rest) :=
-  ppStr_lex U P s q rest hq h
-
-/-- the string `'"$` is printed `$$'"$$$`, read back as `'"` then a stray `$` -/
-theorem edgeql_const_counterexample_dollar (U : UClass) (P : PyUnicode) :
-    ppStr P ['\'', '"', '$'] = some ['$', '$', '\'', '"', '$', '$', '$'] ∧
-    lexOne U ['$', '$', '\'', '"', '$', '$', '$'] = .ok (strTok ['\'', '"'], ['$']) := by
-  exact ⟨by rfl, by rfl⟩
-
-/-- U+0085 (a C1 control, not printable for CPython) is printed `'\x85'`,
-    which the tokenizer rejects ("only non-null ascii allowed") -/
-theorem edgeql_const_counterexample_c1 (U : UClass) (P : PyUnicode)
-    (hP : P.printable (Char.ofNat 0x85) = false) :
-    ppStr P [Char.ofNat 0x85] = some ['\'', '\\', 'x', '8', '5', '\''] ∧
-    lexOne U ['\'', '\\', 'x', '8', '5', '\''] = .error .badEscape := by
-  refine ⟨?_, by rfl⟩
-  have h1 : pyIsPrintable P (Char.ofNat 0x85) = false := by
-    simp only [pyIsPrintable]; simpa using hP
-  have h2 : reprChar P '\'' (Char.ofNat 0x85) = ['\\', 'x', '8', '5'] := by
-    simp only [reprChar, h1]; decide
-  have h3 : [Char.ofNat 0x85].any isNonPrintableRE = true := by decide
-  have h4 : reprQuote [Char.ofNat 0x85] = '\'' := by decide
-  simp [ppStr, h3, pyRepr, h4, h2]
-
-/-- U+202E is printed raw and rejected -/
-theorem edgeql_const_counterexample_bidi (U : UClass) (P : PyUnicode) :
-    ppStr P [Char.ofNat 0x202e] = some ['\'', Char.ofNat 0x202e, '\''] ∧
-    lexOne U ['\'', Char.ofNat 0x202e, '\''] = .error .prohibitedChar := by
-  exact ⟨by rfl, by rfl⟩
+  ppStr_lex U s q rest hq (by simpa [noNul, constExpressible] using h)
 
 /-! ## EdgeQL bytes literal: `visit_BytesConstant` -/
 
-/- FULL STATEMENT (false):
-     ∀ b, lexOne U (ppBytes b ++ rest) = .ok (bytesTok b, rest)
-   `_BYTES_ESCAPE_RE` is written `b'[\\\'\x00-\x1f\x7e-\xff]'` in a non-raw
-   literal: the regex sees `\'`, i.e. the class contains the quote but NOT the
-   backslash, so a backslash byte is printed unescaped. -/
-
 /-- `visit_BytesConstant` is read back as one bytes token with the original
-    value for every byte string without the byte 0x5C, whatever follows. -/
-theorem edgeql_bytes_partial (U : UClass) (b : List UInt8) (rest : List Char)
-    (h : ∀ x ∈ b, x.toNat ≠ 92) :
+    value for EVERY byte string, whatever follows. -/
+theorem edgeql_bytes (U : UClass) (b : List UInt8) (rest : List Char) :
     lexOne U (ppBytes b ++ rest) = .ok (bytesTok b, rest) :=
-  ppBytes_lex U b rest h
-
-/-- `b'\'`: the single backslash byte swallows the closing quote; and the two
-    bytes `\n` are printed `b'\n'`, which reads back as ONE byte 0x0A. -/
-theorem edgeql_bytes_counterexample (U : UClass) :
-    lexOne U (ppBytes [92]) = .error .unterminatedString ∧
-    lexOne U (ppBytes [92, 110]) = .ok (bytesTok [10], []) := by
-  exact ⟨by rfl, by rfl⟩
+  ppBytes_lex U b rest
 
 /-! ## EdgeQL identifiers: `quote_ident` -/
 
-/- FULL STATEMENT (false): with `identExpressible` weakened to "some form can
-   express the name".  `quote_ident` decides with Python's regex classes
-   (`[^\W\d]\w*`), the tokenizer with Rust's `is_alphabetic/is_alphanumeric`:
-   e.g. U+00B2 (superscript two) is `\w`, not `\d`, hence a legal FIRST character
-   for Python, but not alphabetic for Rust; the name `²a` is left bare and
-   rejected, although `` `²a` `` would be fine. -/
-
 /-- `quote_ident` (default flags) is read back as one identifier-like token
     (an `Ident`, or a keyword that is not reserved, or `__type__`/`__std__`)
-    whose value is the original name, on `identExpressible` names. -/
-theorem edgeql_ident_partial (U : UClass) (P : PyUnicode) (s rest : List Char)
-    (h : identExpressible P U s = true)
+    whose value is the original name, for EVERY name some identifier form can
+    carry (`identExpressible`), provided Python's classes are inside the
+    tokenizer's (`Compat P U`: a fact about the two Unicode tables; on the
+    real ones — CPython 3.12 / Unicode 15.0 vs the rustc in use — the harness
+    finds no exception among all 1 112 064 code points). -/
+theorem edgeql_ident (U : UClass) (P : PyUnicode) (hc : Compat P U) (s rest : List Char)
+    (h : identExpressible P s = true)
     (hd : identDelim U (needsQuoting P s false false) rest) :
     ∃ t, lexOne U (quoteIdent P s false false false ++ rest) = .ok (t, rest) ∧
       t.val = .str s ∧ IdentLike t.kind :=
-  quoteIdent_lex U P s rest h hd
+  quoteIdent_lex U P hc s rest h hd
 
 /-- `quote_ident(s, force=True)` on names the back-quoted form can carry -/
 theorem edgeql_ident_forced (U : UClass) (P : PyUnicode) (s rest : List Char)
@@ -189,56 +128,29 @@ theorem edgeql_ident_forced (U : UClass) (P : PyUnicode) (s rest : List Char)
     lexOne U (quoteIdent P s true false false ++ rest) = .ok (⟨.ident, .str s⟩, rest) :=
   quoteIdent_forced_lex U P s rest h hq
 
-/-- `²a`: alphanumeric and not decimal for CPython, not alphabetic for Rust:
-    left bare, rejected; the back-quoted form would have been accepted. -/
-theorem edgeql_ident_counterexample (U : UClass) (P : PyUnicode)
-    (h1 : P.isalnum (Char.ofNat 0xb2) = true) (h2 : P.isdecimal (Char.ofNat 0xb2) = false)
-    (h3 : P.lower [Char.ofNat 0xb2, 'a'] = [Char.ofNat 0xb2, 'a'])
-    (h4 : U.alpha (Char.ofNat 0xb2) = false) :
-    quoteIdent P [Char.ofNat 0xb2, 'a'] false false false = [Char.ofNat 0xb2, 'a'] ∧
-    lexOne U [Char.ofNat 0xb2, 'a'] = .error .unexpectedChar ∧
-    lexOne U (quoteIdentRaw [Char.ofNat 0xb2, 'a']) = .ok (⟨.ident, .str [Char.ofNat 0xb2, 'a']⟩, []) := by
-  refine ⟨?_, ?_, by rfl⟩
-  · have hl : pyLower P [Char.ofNat 0xb2, 'a'] = [Char.ofNat 0xb2, 'a'] := by
-      have : ([Char.ofNat 0xb2, 'a'].all fun c => decide (c.toNat < 128)) = false := by decide
-      simp only [pyLower, this]; simpa using h3
-    have hw : pyIsWordStart P (Char.ofNat 0xb2) = true := by
-      have a : pyIsAlnum P (Char.ofNat 0xb2) = true := by simp only [pyIsAlnum]; simpa using h1
-      have b : pyIsDecimal P (Char.ofNat 0xb2) = false := by simp only [pyIsDecimal]; simpa using h2
-      simp [pyIsWordStart, pyIsWord, a, b]
-    have hm : matchIdent P [Char.ofNat 0xb2, 'a'] = true := by
-      have : pyIsWord P 'a' = true := by simp [pyIsWord, pyIsAlnum, isAsciiLetter]
-      simp [matchIdent, hw, this]
-    have hr : isReservedKw [Char.ofNat 0xb2, 'a'] = false := by decide
-    have hc : ([Char.ofNat 0xb2, 'a'].isEmpty || decide ([Char.ofNat 0xb2, 'a'].head? = some '@') ||
-        Quote.hasNamespaceSep [Char.ofNat 0xb2, 'a']) = false := by decide
-    simp [quoteIdent, needsQuoting, hc, hm, hl, hr]
-  · have : isAlpha U (Char.ofNat 0xb2) = false := by simp only [isAlpha]; simpa using h4
-    simp [lexOne, this, isDigit]
-
 /-! ## The whole text is exactly one token
 
 `lexAll` is the token stream (white space and comments skipped between
 tokens, EOI excluded).  This is the shape of the harness oracle: real quoting
 function → real tokenizer → one token (+EOI) with the original value. -/
 
-theorem edgeql_str_single (U : UClass) (s : List Char) (h : noProhibited s = true) :
+theorem edgeql_str_single (U : UClass) (s : List Char) (h : noNul s = true) :
     lexAll U (quoteLiteral s) = ([strTok s], none) :=
-  quoteLiteral_lexAll U s (by simpa [noProhibited] using h)
+  quoteLiteral_lexAll U s (by simpa [noNul] using h)
 
 theorem edgeql_dollar_single (U : UClass) (s q : List Char)
     (hq : dollarQuoteLiteral s = some q) (h : dollarExpressible s = true) :
     lexAll U q = ([strTok s], none) :=
   dollarQuote_lexAll U s q hq h
 
-theorem edgeql_const_single (U : UClass) (P : PyUnicode) (s q : List Char)
-    (hq : ppStr P s = some q) (h : constExpressible P s = true) :
+theorem edgeql_const_single (U : UClass) (s q : List Char)
+    (hq : ppStr s = some q) (h : noNul s = true) :
     lexAll U q = ([strTok s], none) :=
-  ppStr_lexAll U P s q hq h
+  ppStr_lexAll U s q hq (by simpa [noNul, constExpressible] using h)
 
-theorem edgeql_bytes_single (U : UClass) (b : List UInt8) (h : ∀ x ∈ b, x.toNat ≠ 92) :
+theorem edgeql_bytes_single (U : UClass) (b : List UInt8) :
     lexAll U (ppBytes b) = ([bytesTok b], none) :=
-  ppBytes_lexAll U b h
+  ppBytes_lexAll U b
 
 /-! ## SQL: `edb/pgsql/common.py` against the PostgreSQL lexical rules -/
 
@@ -321,19 +233,110 @@ theorem pg_eliteral_counterexample :
     PgLex.lexEsc (pgQuoteELiteral ['a', '\\', 'n', 'b']) = .ok (['a', '\n', 'b'], []) := by
   exact ⟨by rfl, by rfl⟩
 
+/-! ## What the fixes repaired
+
+The counterexamples below were true of the code before the four fixes; they are
+stated about `EdbVerif.QuoteOld` (the previous functions) and paired with what
+the current functions do on the same input.  The harness does not replay them
+as failures any more: on the current tree the inputs must pass. -/
+
+/-- before 269eaeb: `dollar_quote_literal('x$') = '$$x$$$'`, read back as `x` + stray `$`;
+    now `$a$x$$a$`, read back as `x$` -/
+theorem fixed_dollar (U : UClass) :
+    QuoteOld.dollarQuoteLiteral ['x', '$'] = some ['$', '$', 'x', '$', '$', '$'] ∧
+    lexOne U ['$', '$', 'x', '$', '$', '$'] = .ok (strTok ['x'], ['$']) ∧
+    dollarQuoteLiteral ['x', '$'] = some ['$', 'a', '$', 'x', '$', '$', 'a', '$'] ∧
+    lexOne U ['$', 'a', '$', 'x', '$', '$', 'a', '$'] = .ok (strTok ['x', '$'], []) := by
+  exact ⟨by decide, by rfl, by decide, by rfl⟩
+
+/-- before 269eaeb: `'"$` was printed `$$'"$$$`; now `$a$'"$$a$` -/
+theorem fixed_const_dollar (U : UClass) :
+    QuoteOld.ppStr ['\'', '"', '$'] = some ['$', '$', '\'', '"', '$', '$', '$'] ∧
+    lexOne U ['$', '$', '\'', '"', '$', '$', '$'] = .ok (strTok ['\'', '"'], ['$']) ∧
+    ppStr ['\'', '"', '$'] = some ['$', 'a', '$', '\'', '"', '$', '$', 'a', '$'] := by
+  exact ⟨by decide, by rfl, by decide⟩
+
+/-- before 1c83ec0: U+202E was printed raw by `quote_literal` and by
+    `visit_Constant` and rejected; now both print `'\u202e'` -/
+theorem fixed_bidi (U : UClass) :
+    lexOne U (QuoteOld.quoteLiteral [Char.ofNat 0x202e]) = .error .prohibitedChar ∧
+    QuoteOld.ppStr [Char.ofNat 0x202e] = some ['\'', Char.ofNat 0x202e, '\''] ∧
+    quoteLiteral [Char.ofNat 0x202e] = ['\'', '\\', 'u', '2', '0', '2', 'e', '\''] ∧
+    ppStr [Char.ofNat 0x202e] = some ['\'', '\\', 'u', '2', '0', '2', 'e', '\''] := by
+  exact ⟨by rfl, by decide, by decide, by decide⟩
+
+/-- before 1c83ec0 a string with U+0085 went through Python's `repr` and came
+    out as `'\x85'` (rejected: "only non-null ascii allowed"); now `'\u0085'` -/
+theorem fixed_c1 (U : UClass) :
+    lexOne U ['\'', '\\', 'x', '8', '5', '\''] = .error .badEscape ∧
+    ppStr [Char.ofNat 0x85] = some ['\'', '\\', 'u', '0', '0', '8', '5', '\''] ∧
+    lexOne U ['\'', '\\', 'u', '0', '0', '8', '5', '\''] = .ok (strTok [Char.ofNat 0x85], []) := by
+  exact ⟨by rfl, by decide, by rfl⟩
+
+/-- before 6e967b8: `b'\'` swallowed the closing quote, and the bytes `5c 6e`
+    were printed `b'\n'` = ONE byte `0a`; now `b'\\'` and `b'\\n'` -/
+theorem fixed_bytes (U : UClass) :
+    lexOne U (QuoteOld.ppBytes [92]) = .error .unterminatedString ∧
+    lexOne U (QuoteOld.ppBytes [92, 110]) = .ok (bytesTok [10], []) ∧
+    ppBytes [92, 110] = ['b', '\'', '\\', '\\', 'n', '\''] := by
+  exact ⟨by rfl, by rfl, by decide⟩
+
+/-- before 878e057: `²a` (U+00B2: alphanumeric, not decimal, NOT alphabetic for
+    CPython; not alphabetic for Rust) was left bare and rejected; now it is
+    back-quoted -/
+theorem fixed_ident (U : UClass) (P : PyUnicode)
+    (h1 : P.isalnum (Char.ofNat 0xb2) = true) (h2 : P.isdecimal (Char.ofNat 0xb2) = false)
+    (h2' : P.isalpha (Char.ofNat 0xb2) = false)
+    (h3 : P.lower [Char.ofNat 0xb2, 'a'] = [Char.ofNat 0xb2, 'a'])
+    (h4 : U.alpha (Char.ofNat 0xb2) = false) :
+    QuoteOld.quoteIdent P [Char.ofNat 0xb2, 'a'] = [Char.ofNat 0xb2, 'a'] ∧
+    lexOne U [Char.ofNat 0xb2, 'a'] = .error .unexpectedChar ∧
+    quoteIdent P [Char.ofNat 0xb2, 'a'] false false false = quoteIdentRaw [Char.ofNat 0xb2, 'a'] ∧
+    lexOne U (quoteIdentRaw [Char.ofNat 0xb2, 'a']) = .ok (⟨.ident, .str [Char.ofNat 0xb2, 'a']⟩, []) := by
+  have hl : pyLower P [Char.ofNat 0xb2, 'a'] = [Char.ofNat 0xb2, 'a'] := by
+    have : ([Char.ofNat 0xb2, 'a'].all fun c => decide (c.toNat < 128)) = false := by decide
+    simp only [pyLower, this]; simpa using h3
+  have ha : pyIsAlnum P (Char.ofNat 0xb2) = true := by simp only [pyIsAlnum]; simpa using h1
+  have hb : pyIsDecimal P (Char.ofNat 0xb2) = false := by simp only [pyIsDecimal]; simpa using h2
+  have hal : pyIsAlpha P (Char.ofNat 0xb2) = false := by simp only [pyIsAlpha]; simpa using h2'
+  have hw : pyIsWordStart P (Char.ofNat 0xb2) = true := by simp [pyIsWordStart, pyIsWord, ha, hb]
+  have hm : matchIdent P [Char.ofNat 0xb2, 'a'] = true := by
+    have : pyIsWord P 'a' = true := by simp [pyIsWord, pyIsAlnum, isAsciiLetter]
+    simp [matchIdent, hw, this]
+  have hr : isReservedKw [Char.ofNat 0xb2, 'a'] = false := by decide
+  have hc : ([Char.ofNat 0xb2, 'a'].isEmpty || decide ([Char.ofNat 0xb2, 'a'].head? = some '@') ||
+      Quote.hasNamespaceSep [Char.ofNat 0xb2, 'a']) = false := by decide
+  refine ⟨?_, ?_, ?_, by rfl⟩
+  · simp [QuoteOld.quoteIdent, QuoteOld.needsQuoting, hc, hm, hl, hr]
+  · have : isAlpha U (Char.ofNat 0xb2) = false := by simp only [isAlpha]; simpa using h4
+    simp [lexOne, this, isDigit]
+  · have hne : (Char.ofNat 0xb2) ≠ '_' := by decide
+    have hns : Quote.hasNamespaceSep [Char.ofNat 0xb2, 'a'] = false := by decide
+    simp [quoteIdent, needsQuoting, hns, hm, hl, hr, hal, hb, hne]
+
 /-! ## Non-vacuity: the guards are met by non-trivial inputs -/
 
-example : noProhibited "it's a \\ \"test\"\n\t$$".toList = true := by decide
-example : dollarExpressible "a$$b'\"$a$c".toList = true ∧
-    dollarTag "a$$b'\"$a$c".toList = some "$b$".toList := by decide
-example : constExpressible PyUnicode.ascii "both ' and \" and $$ and \\".toList = true := by decide
-example : constExpressible PyUnicode.ascii "ctrl \n and \x01 and '".toList = true := by decide
-example : identExpressible PyUnicode.ascii UClass.ascii "select".toList = true ∧
+example : noNul "it's a \\ \"test\"\n\t$$ \x01".toList = true := by decide
+example : dollarExpressible "a$$b'\"$a$c$".toList = true ∧
+    dollarTag "a$$b'\"$a$c$".toList = some "$b$".toList := by decide
+example : ppStr "both ' and \" and $".toList = some "$a$both ' and \" and $$a$".toList := by decide
+example : identExpressible PyUnicode.ascii "select".toList = true ∧
     quoteIdent PyUnicode.ascii "select".toList false false false = "`select`".toList := by decide
-example : identExpressible PyUnicode.ascii UClass.ascii "abort".toList = true ∧
+example : identExpressible PyUnicode.ascii "abort".toList = true ∧
     quoteIdent PyUnicode.ascii "abort".toList false false false = "abort".toList := by decide
-example : identExpressible PyUnicode.ascii UClass.ascii "my `odd` name".toList = true := by decide
-example : identExpressible PyUnicode.ascii UClass.ascii "__type__".toList = true := by decide
+example : identExpressible PyUnicode.ascii "my `odd` name".toList = true := by decide
+example : identExpressible PyUnicode.ascii "__type__".toList = true := by decide
+example : Compat PyUnicode.ascii UClass.ascii := by
+  refine ⟨fun c h => ?_, fun c h => ?_⟩
+  · simp only [pyIsAlpha, PyUnicode.ascii] at h
+    simp only [isAlpha]
+    split at h <;> simp_all
+  · simp only [pyIsWord, pyIsAlnum, PyUnicode.ascii, Bool.or_eq_true, decide_eq_true_eq] at h
+    rcases h with h | h
+    · right
+      simp only [isAlnum]
+      split at h <;> simp_all
+    · exact Or.inl h
 example : pgIdentExpressible PyUnicode.ascii "User \"x\"".toList false false = true ∧
     pgIdentExpressible PyUnicode.ascii "plain_name1".toList false false = true := by decide
 example : pgQuoteIdent PyUnicode.ascii "select".toList false false = "\"select\"".toList ∧
